@@ -31,7 +31,7 @@ import (
 func f(t string, list bool) [2]interface{} { return [2]interface{}{t, list} }
 
 var fields = map[string]map[string][2]interface{}{
-	"Query": {"users": f("User", true), "user1": f("User", false), "nobody": f("User", false), "everyone": f("Everyone", true),
+	"Query": {"users": f("User", true), "user1": f("User", false), "nobody": f("User", false), "everyone": f("Everyone", true), "solo": f("Solo", false),
 		"devices": f("Device", true), "devicesN": f("Device", true), "count": f("Int", false),
 		"userById1": f("User", false), "userById3": f("User", false), "userById9": f("User", false)},
 	"User": {"id": f("Int", false), "orgId": f("Int", false), "name": f("String", false), "secret": f("String", false),
@@ -338,7 +338,7 @@ func Main(args []string) error {
 	if err := fs.Parse(args); err != nil {
 		return err
 	}
-	ex.UseSchema(fields, map[string][]string{"Everyone": {"User", "Admin"}})
+	ex.UseSchema(fields, map[string][]string{"Everyone": {"User", "Admin"}, "Solo": {"User"}})
 	ex.UseRendered(fedzoo.Rendered)
 	ex.UseDupBias(*dup)
 	if *zooOut != "" {
